@@ -40,7 +40,7 @@ def make_case(rng, cid, prec, kind, n, quick):
     rhs = [rnd(gen.val(rng)) for _ in range(n * nrhs * ncomp)]
     stype = rng.choice(["NC", "NC", "NR"])
     return dict(id=cid, prec=prec, driver="gssv", stype=stype, m=n, n=n, colptr=A["colptr"], rowind=A["rowind"], vals=vals,
-                nrhs=nrhs, rhs=rhs, nprocs=rng.choice([1, 2, 3, 4, 8, n + 3, 33]), colperm=rng.choice([0, 1, 2, 3]),
+                nrhs=nrhs, rhs=rhs, ldb=n + rng.choice([0, 0, 1, 5]), nprocs=rng.choice([1, 2, 3, 4, 8, n + 3, 33]), colperm=rng.choice([0, 1, 2, 3]),
                 ienv=[rng.choice([1, 2, 4, 8, 20]), rng.choice([1, 2, 4, 6]), rng.choice([8, 20, 200]), rng.choice([4, 200]),
                       rng.choice([2, 100]), -50, -50, -30],
                 perturb=[rng.randint(1, 10 ** 6), rng.choice([0.0, 0.1, 0.4]), rng.choice([0, 50, 300])],
@@ -76,6 +76,8 @@ def oracle(c, r):
         return "info = %d for a nonsingular matrix" % r["info"]
     if not r["A_unchanged"]:
         return "A was modified by the driver"
+    if r.get("pad_modified"):
+        return "%d storage entries of B outside the n x nrhs matrix (ldb %d) were modified" % (r["pad_modified"], r.get("ldb"))
     if r["threads_after"] != 1:
         return "threads left after return: %d" % r["threads_after"]
     if sorted(r["perm_r"]) != list(range(n)) or sorted(r["perm_c"]) != list(range(n)):
